@@ -351,7 +351,17 @@ pub fn run(args: &[String]) -> Value {
         *by_suite.entry(suite.clone()).or_insert(0) += 1;
         let exp = &case["exp"];
         let stmts = case["prog"].as_array().unwrap();
-        let text = match catch(|| Renderer::new().program(stmts)) {
+        let text = match catch(|| {
+            let mut rd = Renderer::new();
+            let t = rd.program(stmts);
+            for (path, body) in &rd.files {
+                if let Some(dir) = std::path::Path::new(path).parent() {
+                    let _ = std::fs::create_dir_all(dir);
+                }
+                std::fs::write(path, body).expect("cannot write import file");
+            }
+            t
+        }) {
             Ok(t) => t,
             Err(p) => {
                 mm.push("render", json!({"id": case["id"], "suite": suite, "panic": p}));
@@ -488,6 +498,7 @@ pub fn run(args: &[String]) -> Value {
             _ => {}
         }
     }
+    let _ = std::fs::remove_dir_all(Renderer::new().import_dir);
     json!({"cases": cases.len(), "distinct_programs": distinct.len(), "by_suite": by_suite, "counts": counts,
         "events_raw": n_events_raw, "events_written": n_events,
         "mismatch_counts": mm.counts(), "mismatches": mm.items(), "samples": samples})
